@@ -236,14 +236,14 @@ def judge(module, records, *, cfg=None, shards=None, env=None, timeout=3600, max
         shutil.rmtree(tmp, ignore_errors=True)
 
 
-def generate(module, *, cfg=None, env=None, timeout=3600, xmx='3g'):
+def generate(module, *, cfg=None, env=None, timeout=3600, xmx='3g', overrides=None):
     """Run a generator module: it must ndJsonSerialize to IOEnv.OUT_FILE.  Returns list of records."""
     tmp = mktmp('gen-')
     try:
         out = os.path.join(tmp, 'out.ndjson')
         e = dict(env or {})
         e['OUT_FILE'] = out
-        res = run_tlc(module, cfg=cfg, env=e, timeout=timeout, xmx=xmx)
+        res = run_tlc(module, cfg=cfg, env=e, timeout=timeout, xmx=xmx, overrides=overrides)
         if res.violated:
             raise MachineryError(f'generator {module} failed: {res.violated}\n{res.out[-3000:]}')
         if not os.path.exists(out):
